@@ -423,7 +423,7 @@ func ruleSinkGuarded(c *Ctx) {
 				return
 			}
 			for _, hn := range g.helpers {
-				if cc.StaticCallee().Name() == hn {
+				if baseFuncName(cc.StaticCallee()) == hn {
 					found[hn] = true
 					if !s.has(want) {
 						bad[hn] = ins
@@ -601,7 +601,7 @@ func ruleSinkGuarded(c *Ctx) {
 				if cc == nil {
 					return
 				}
-				if cc.IsInvoke() && cc.Method.Name() != "ServeHTTP" || !cc.IsInvoke() && (cc.StaticCallee() == nil || cc.StaticCallee().Name() != "ServeHTTP") {
+				if cc.IsInvoke() && cc.Method.Name() != "ServeHTTP" || !cc.IsInvoke() && (cc.StaticCallee() == nil || baseFuncName(cc.StaticCallee()) != "ServeHTTP") {
 					return
 				}
 				found = true
@@ -880,7 +880,7 @@ func ruleBypassConfigOnly(c *Ctx) {
 			return
 		}
 		f, base, okp := fieldLoad(cc.Args[1])
-		c.Decide(origin(cc.Args[2]) == ssa.Value(cp.Params[1]) && okp && f.Name() == "path" && origin(base) == ssa.Value(cp.Params[0]), "checkPermission:args@"+p.InstrPos(ins), p.InstrPos(ins), "checks the session path for the requested right", "checkPermission does not validate (s.path, right) - a different path or a fixed right is checked")
+		c.Decide(origin(cc.Args[2]) == ssa.Value(cp.Params[1]) && okp && theProgram.baseFieldName(f) == "path" && origin(base) == ssa.Value(cp.Params[0]), "checkPermission:args@"+p.InstrPos(ins), p.InstrPos(ins), "checks the session path for the requested right", "checkPermission does not validate (s.path, right) - a different path or a fixed right is checked")
 	})
 }
 
@@ -906,7 +906,7 @@ func rulePathAgreement(c *Ctx) {
 			return false
 		}
 		f, base, ok := fieldLoad(call.Call.Args[0])
-		if !ok || f.Name() != "Path" {
+		if !ok || theProgram.baseFieldName(f) != "Path" {
 			return false
 		}
 		uf, _, ok := fieldLoad(base)
@@ -985,7 +985,7 @@ func rulePathAgreement(c *Ctx) {
 				}
 				instrs(nc, func(i2 ssa.Instruction) {
 					if st, ok := i2.(*ssa.Store); ok {
-						if f, _, ok := fieldAddr(st.Addr); ok && f.Name() == "path" && origin(st.Val) == ssa.Value(nc.Params[ai]) {
+						if f, _, ok := fieldAddr(st.Addr); ok && theProgram.baseFieldName(f) == "path" && origin(st.Val) == ssa.Value(nc.Params[ai]) {
 							okStore = true
 						}
 					}
@@ -997,7 +997,7 @@ func rulePathAgreement(c *Ctx) {
 			ret := false
 			instrs(pm, func(ins ssa.Instruction) {
 				if r, ok := ins.(*ssa.Return); ok {
-					if f, _, ok := fieldLoad(retValue(r, 0)); ok && f.Name() == "path" {
+					if f, _, ok := fieldLoad(retValue(r, 0)); ok && theProgram.baseFieldName(f) == "path" {
 						ret = true
 					}
 				}
@@ -1106,7 +1106,7 @@ func rulePathAgreement(c *Ctx) {
 					store = ins
 				}
 			}
-			if cc := callCommon(ins); cc != nil && cc.StaticCallee() != nil && cc.StaticCallee().Name() == "checkPermission" {
+			if cc := callCommon(ins); cc != nil && cc.StaticCallee() != nil && baseFuncName(cc.StaticCallee()) == "checkPermission" {
 				check = ins
 			}
 		})
@@ -1455,7 +1455,7 @@ func ruleTokenKind(c *Ctx) {
 	stores := 0
 	instrs(nt, func(ins ssa.Instruction) {
 		if cc := callCommon(ins); cc != nil && calleeName(cc) == "(*sync.Map).Store" {
-			if f, _, ok := fieldLoad(stripConv(cc.Args[1])); ok && (f.Name() == "AToken" || f.Name() == "RToken") {
+			if f, _, ok := fieldLoad(stripConv(cc.Args[1])); ok && (theProgram.baseFieldName(f) == "AToken" || theProgram.baseFieldName(f) == "RToken") {
 				stores++
 			}
 		}
